@@ -331,7 +331,8 @@ def r5(ctx):
             bb = ctx.ibody(d)
             for bi, t, tm in bb.real_calls():
                 if tm[1] == seq + "::new" or (mir.short(tm[1]).endswith("Sequencer::new")):
-                    seeds.append(render(tm[2][0]))
+                    # (`?` read through: a seed obtained from a fallible private helper is that helper's Ok payload)
+                    seeds.append(render(common.drop_never(common.untry(bb, tm[2][0]))))
             # `Sequencer::new` is constructor-like and may be inlined by the provenance engine: look for the literal
             terms = [bb.call_term(t, bi) for bi, t in bb.iter_calls()] + [bb.return_term()]
             for tm in terms:
@@ -339,7 +340,7 @@ def r5(ctx):
                     if sub[0] == "agg" and sub[1].startswith("adt:" + seq + "::"):
                         f = dict(zip(sub[2], sub[3]))
                         if "last_update_id" in f:
-                            seeds.append(render(f["last_update_id"]))
+                            seeds.append(render(common.drop_never(common.untry(bb, f["last_update_id"]))))
         # `new` may be inlined as a constructor: look for the aggregate too
         ok = bool(seeds) and all(x.endswith(".sequence") and "snapshot" in x.lower() or x.endswith(".kind.as:Snapshot.0.sequence") for x in seeds)
         n += 1
